@@ -36,7 +36,7 @@ ASSUMPTIONS = [
 PROBES = ["restart_after_other_use", "feature_all_steps", "resim_old_buffers_checked", "shared_underlier_resim",
           "prev_output_corrupted_then_hedged", "model_raise_then_hedged", "hedger_cast", "listed_hedge",
           "lazy_model", "requires_grad_flag_flipped", "kept_feature_reused", "listed_quote_vs_fresh_pricer", "clone_opposite_grad_mode", "clone_opposite_module_mode",
-          "kept_bs_module_reused", "attribute_assigned_on_live_object"]
+          "kept_bs_module_reused", "attribute_assigned_on_live_object", "relisted_between_calls"]
 
 
 class SimFault(Exception):
@@ -167,7 +167,9 @@ def generate(rng):
                 m["units"] = [rng.randint(2, 6)]
                 m["act"] = rng.choice(["tanh", "relu", "softplus"])
             models.append(m)
-        hedgers.append({"id": hid, "model": "m%d" % hi, "inputs": feats, "criterion": rng.choice(crits)["id"]})
+        # a third of the hedgers rely on the default criterion: ONE EntropicRiskMeasure instance shared by all of them
+        hedgers.append({"id": hid, "model": "m%d" % hi, "inputs": feats,
+                        "criterion": None if rng.chance(0.33) else rng.choice(crits)["id"]})
         compat[hid] = [d["id"] for d in ds]
         hedges_of[hid] = hl
     world = {"primaries": prims, "derivatives": derivs, "models": models, "criteria": crits, "hedgers": hedgers}
@@ -181,7 +183,12 @@ def generate(rng):
     def too_short(d):
         # a forward-start payoff needs the grid to reach its start index
         return d["kind"] == "EuropeanForwardStartOption" and simk[d["underlier"]] < d["_k"]
-    pdtype = {p["id"]: (p["dtype"] or "float32") for p in prims}
+    pdecl = {p["id"]: p["dtype"] for p in prims}          # declared dtype (None = follows the global default)
+    pbuf = {p["id"]: None for p in prims}                 # dtype of the current buffers
+    gdef = ["float32"]                                    # the process-global default dtype
+
+    def new_sim_dtype(pid):
+        return pdecl[pid] or gdef[0]
     mdtype = {h["id"]: "float32" for h in hedgers}
     ops = []
     n_ops = rng.randint(6, 30) * (2 if rng.big else 1)
@@ -197,7 +204,16 @@ def generate(rng):
         kind = rng.wchoice([("simulate", 3), ("hedger_op", 6), ("quant", 4), ("cast", 1), ("fault", 10 * fault_rate), ("set_attr", 1)])
         if kind == "set_attr":
             # the user re-parameterises a live object: results afterwards depend on the new attribute only
-            if rng.chance(0.35):
+            listed_ds = [x for x in derivs if x.get("listed")]
+            if listed_ds and rng.chance(0.3):
+                dl = rng.choice(listed_ds)
+                newp = rng.choice(["affine:2.0:0.25", "affine:0.5:0.0", "sq:0.5"])
+                emit({"op": "relist", "target": dl["id"], "pricer": newp, "cost": rng.choice([0.0, 1e-3, 0.01])}, actor)
+                dl["listed"] = {"pricer": newp, "cost": 0.0}   # generation-time view; execution keeps its own copy
+            elif rng.chance(0.2):
+                gdef[0] = rng.choice(["float32", "float64"])
+                emit({"op": "default_dtype", "dtype": gdef[0]}, actor)
+            elif rng.chance(0.35):
                 # another calendar on the same objects: dt changes, maturities keep their number of steps -> identical shapes
                 p = rng.choice(prims)
                 from ..gen import DTS
@@ -217,6 +233,7 @@ def generate(rng):
                 op = {"op": "simulate", "target": d["id"], "n_paths": n, "torch_seed": rng.seed31()}
                 sim[d["underlier"]] = n
                 simk[d["underlier"]] = d["_k"]
+                pbuf[d["underlier"]] = new_sim_dtype(d["underlier"])
             else:
                 p = rng.choice(prims)
                 n = rng.choice([1, 2, 3, 5])
@@ -224,6 +241,7 @@ def generate(rng):
                       "time_horizon": rng.randint(9, 12) * p["params"]["dt"]}
                 sim[p["id"]] = n
                 simk[p["id"]] = 9
+                pbuf[p["id"]] = new_sim_dtype(p["id"])
             emit(op, actor)
         elif kind == "hedger_op":
             h = rng.choice(hedgers)
@@ -237,9 +255,11 @@ def generate(rng):
                 emit({"op": "simulate", "target": d["id"], "n_paths": n, "torch_seed": rng.seed31()}, actor)
                 sim[ul] = n
                 simk[ul] = d["_k"]
-            if mdtype[h["id"]] != pdtype[ul]:
-                emit({"op": "hedger_to", "hedger": h["id"], "dtype": pdtype[ul]}, actor)
-                mdtype[h["id"]] = pdtype[ul]
+                pbuf[ul] = new_sim_dtype(ul)
+            need = new_sim_dtype(ul) if ck in RESIM else pbuf[ul]
+            if mdtype[h["id"]] != need:
+                emit({"op": "hedger_to", "hedger": h["id"], "dtype": need}, actor)
+                mdtype[h["id"]] = need
             op = {"op": "compute", "kind": ck, "hedger": h["id"], "derivative": d["id"],
                   "hedge": hedges_of[h["id"]][d["id"]], "torch_seed": rng.seed31(),
                   "restart": rng.chance(0.6), "grad_mode": rng.choice([None, None, "no_grad", "enable_grad"])}
@@ -254,6 +274,7 @@ def generate(rng):
                     op["n_times"] = rng.choice([1, 1, 2])
                 sim[ul] = op["n_paths"]
                 simk[ul] = d["_k"]
+                pbuf[ul] = new_sim_dtype(ul)
             emit(op, actor)
         elif kind == "quant":
             qk = rng.wchoice([("payoff", 2), ("feature", 5), ("listed_spot", 3), ("bs_bound", 2), ("bs_explicit", 2),
@@ -305,7 +326,9 @@ def generate(rng):
                 p = rng.choice(prims)
                 dt = rng.choice(["float32", "float64"])
                 emit({"op": "instrument_to", "target": p["id"], "dtype": dt}, actor)
-                pdtype[p["id"]] = dt
+                pdecl[p["id"]] = dt
+                if pbuf[p["id"]] is not None:
+                    pbuf[p["id"]] = dt
             else:
                 h = rng.choice(hedgers)
                 dt = rng.choice(["float32", "float64"])
@@ -573,6 +596,19 @@ def _execute(program, stats, hist):
             cast_module_outputs(h.inputs, DT[op["dtype"]])
             stats.probe("hedger_cast")
             hist.add(actor=op.get("actor"), op="hedger_to", hedger=op["hedger"], dtype=op["dtype"])
+        elif name == "relist":
+            from ..world import make_pricer
+            dl_ = world.derivatives[op["target"]]
+            dl_.list(make_pricer(op["pricer"]), cost=op["cost"])
+            world.spec_of("derivatives", op["target"])["listed"] = {"pricer": op["pricer"], "cost": op["cost"]}
+            stats.probe("relisted_between_calls")
+            hist.add(actor=op.get("actor"), op="relist", target=op["target"], pricer=op["pricer"])
+        elif name == "default_dtype":
+            # the process-global default changes between two operations (F4); declared dtypes keep instruments where they are,
+            # instruments without a declared dtype follow on their next simulation - results must still not depend on history
+            torch.set_default_dtype(DT[op["dtype"]])
+            stats.fault("F4_default_dtype_flip")
+            hist.add(actor=op.get("actor"), op="default_dtype", dtype=op["dtype"])
         elif name == "rescale_time":
             p_ = world.primaries[op["target"]]
             old_dt = float(p_.dt)
@@ -586,6 +622,10 @@ def _execute(program, stats, hist):
             hist.add(actor=op.get("actor"), op="rescale_time", target=op["target"], dt=op["dt"])
         elif name == "set_attr":
             setattr(world.instrument(op["target"]), op["attr"], op["value"])
+            if op["attr"] == "strike":
+                # a Black-Scholes module copies strike / call flag when it is built: a module built earlier legitimately keeps
+                # the old contract, so it is not compared with a fresh one any more
+                world.__dict__.setdefault("_kept_bs", {}).pop(op["target"], None)
             stats.probe("attribute_assigned_on_live_object")
             hist.add(actor=op.get("actor"), op="set_attr", target=op["target"], attr=op["attr"], value=op["value"])
         elif name == "instrument_to":
@@ -897,7 +937,7 @@ def _do_quant(world, op, stats, hist, seq):
             callers, site = _functional(op, stats, seq)
         else:
             raise Inconclusive("unknown quant op")
-    except Inconclusive:
+    except (Inconclusive, Violation):
         raise
     except Exception as e:
         raise Inconclusive("quant op %s raised: %r" % (site, e))
